@@ -10,4 +10,11 @@ KeepProv(r) == Safe(r) /\ ~(UsesFn(r) /\ HasIdb(r))
 R0(h, b) == [h |-> h, b |-> b, t |-> <<"none">>]
 CycleCut == { R0(A("p", <<X>>), <<<<"pos", A("q", <<X>>)>>>>), R0(A("p", <<X>>), <<<<"pos", A("f", <<X>>)>>>>),
               R0(A("q", <<X>>), <<<<"pos", A("p", <<X>>)>>>>), R0(A("r", <<X>>), <<<<"pos", A("p", <<X>>)>>, <<"pos", A("q", <<X>>)>>>>) }
+\* wide bodies: four / six atom-shaped premises, the last one matching two facts under the same earlier bindings (a
+\* variable that is not in the head), so that alternative proofs differ only in their last premise
+Z == Var("Z")
+WideBodies == { R0(A("w", <<X>>), <<<<"pos", A("f", <<Y>>)>>, <<"pos", A("e", <<Y, X>>)>>, <<"pos", A("e", <<X, Y>>)>>, <<"pos", A("e", <<X, Z>>)>>>>),
+                R0(A("w", <<X>>), <<<<"pos", A("f", <<Y>>)>>, <<"pos", A("e", <<Y, X>>)>>, <<"pos", A("e", <<X, Y>>)>>, <<"pos", A("f", <<Y>>)>>, <<"pos", A("e", <<Y, X>>)>>, <<"pos", A("e", <<X, Z>>)>>>>),
+                R0(A("v", <<X>>), <<<<"pos", A("w", <<X>>)>>, <<"neg", A("f", <<X>>)>>, <<"pos", A("e", <<X, Z>>)>>>>) }
+ProvExtra == CycleCut \cup WideBodies
 =============================================================================
